@@ -1315,3 +1315,6 @@ def check_one(case):
     if g == "corpus":
         return check_corpus(case)
     return check_voc(case)
+
+# as-built additions of the seventh wave (reported with the bound in the evidence)
+BOUND = {k: v + "; seventh wave: " + 'the frozen corpus and every one-row deletion / duplication, one-cell deletion and one-choice deletion of its forms of <=40 rows; a translatable column given twice for the default language in every column order; one settings column of any of 61 names x 8 values; catalogue entries for errors after earlier rows (calculate without calculation, ambiguous background-geopoint trigger, malformed reference equal to an unchecked cell)' for k, v in BOUND.items()}
